@@ -8,7 +8,7 @@ Statements
   ["for", {"lb": ["c", v]|["a"], "step": ["c", v]|["a"], "ub": ["a"]|["c", trips]}, body, [init vrefs], [yield vrefs]]
   ["if", ["p", k] | ["cmp", pred, vref, vref], then, else, [then-value vref, else-value vref]]   (5th element optional: data result)
   ["unit", acc, value refs, launch seed, [order seed, keep] | ["idx", [field indices]]]   optional 5th element: partial setup, other field order (C04, C07)
-  ["call", annotated, k]
+  ["call", annotated, k]    k = 0, 1: func.call @ext<k> (annotated: effects<none>); 2: "test.op" marked effects<full>; 3: plain "test.op"
   ["pure", opname, vref, vref]
 A vref is an int taken modulo the number of values visible at that point (arguments, constants, induction
 variables, loop-carried block arguments, pure results, loop results), so every recipe builds valid IR.
@@ -182,7 +182,7 @@ def _stmts(accs, depth, max_stmts, calls=True, pure=True, carried=True, unit_wei
                     elif mk == "carrier":
                         # an opaque call wrapped in 1..2 region ops that hold nothing else: a loop, the then- or the else-branch of an if
                         # (sometimes beside a call annotated as effect free, before or behind it)
-                        inner = [["call", False, draw(st.integers(0, 1))]]
+                        inner = [["call", False, draw(st.sampled_from([0, 1, 0, 1, 2]))]]
                         beside = draw(st.sampled_from([None, None, "before", "behind"]))
                         if beside == "before":
                             inner.insert(0, ["call", True, draw(st.integers(0, 1))])
@@ -281,7 +281,7 @@ def _stmts(accs, depth, max_stmts, calls=True, pure=True, carried=True, unit_wei
                 else:
                     out.append(["if", cond, th, el])
             elif k == "call":
-                out.append(["call", draw(st.booleans()), draw(st.integers(0, 1))])
+                out.append(["call", draw(st.booleans()), draw(st.sampled_from([0, 1, 0, 1, 2, 3]))])
             else:
                 out.append(["pure", draw(st.sampled_from(PURE_OPS)), draw(_vref()), draw(_vref())])
         return out
@@ -438,9 +438,17 @@ def build(recipe, ty=None, extra_module_ops="", func_name="main") -> Built:
                 vals.append(r)
             elif k == "call":
                 _, annotated, kk = s
-                attr = ' {"accfg.effects" = #accfg.effects<none>}' if annotated else ""
-                out.append(f'{pad}"func.call"() <{{callee = @ext{kk % 2}}}>{attr} : () -> ()')
-                b.features.add("call_annotated" if annotated else "call_plain")
+                if kk % 4 == 2:
+                    # not a call: an opaque op marked as reconfiguring the accelerators
+                    out.append(f'{pad}"test.op"() {{"accfg.effects" = #accfg.effects<full>}} : () -> ()')
+                    b.features.add("op_marked_full")
+                elif kk % 4 == 3:
+                    out.append(f'{pad}"test.op"() : () -> ()')
+                    b.features.add("op_unmarked")
+                else:
+                    attr = ' {"accfg.effects" = #accfg.effects<none>}' if annotated else ""
+                    out.append(f'{pad}"func.call"() <{{callee = @ext{kk % 2}}}>{attr} : () -> ()')
+                    b.features.add("call_annotated" if annotated else "call_plain")
             elif k == "for":
                 _, hdr, body, inits, ylds = s
                 lid = b.nloops
